@@ -203,3 +203,22 @@ Proof.
         (conj PolicySrcAgree.src_policy_apply_filter_total PolicySrcAgree.src_policy_prune_filter_agrees)).
 Qed.
 Print Assumptions C02_policy_filters_source_translation_agree.
+
+(* The spelling of "carries a deletion-prevention annotation" (c_keep / l_keep), from pkg/common/common.go on every run:
+   NoDeletion holds of exactly the two documented key/value pairs; the dependency / mutation annotation keys and the
+   inventory label are the documented ones.  (The harness writes these annotations with the library's own constants, so
+   only this obligation notices a changed constant.) *)
+Theorem C02_deletion_prevention_annotations_from_source :
+  (forall key value,
+     PolicySrcAgree.src_no_deletion key value =
+       orb (andb (String.eqb key "client.lifecycle.config.k8s.io/deletion") (String.eqb value "detach"))
+           (andb (String.eqb key "cli-utils.sigs.k8s.io/on-remove") (String.eqb value "keep"))) /\
+  SourceTables.src_no_deletion_tail = ["if val, found := m[key]; found { return val == value }"; "return false"]%string /\
+  SourceTables.src_depends_on_annotation = "config.kubernetes.io/depends-on"%string /\
+  SourceTables.src_mutation_annotation = "config.kubernetes.io/apply-time-mutation"%string.
+Proof.
+  exact (conj PolicySrcAgree.src_no_deletion_agrees
+        (conj (proj1 PolicySrcAgree.src_no_deletion_shape)
+        (conj (proj1 PolicySrcAgree.src_annotation_keys) (proj1 (proj2 PolicySrcAgree.src_annotation_keys))))).
+Qed.
+Print Assumptions C02_deletion_prevention_annotations_from_source.
